@@ -1192,6 +1192,11 @@ func (ev *Eval) resolveType(e ast.Expr) types.Type {
 				return types.NewSlice(t)
 			}
 		}
+	case *ast.MapType:
+		k, v := ev.resolveType(x.Key), ev.resolveType(x.Value)
+		if k != nil && v != nil {
+			return types.NewMap(k, v)
+		}
 	case *ast.ParenExpr:
 		return ev.resolveType(x.X)
 	}
